@@ -41,6 +41,7 @@ type TraceRule struct {
 	File  string
 	Line  int
 	Loop  int // 0 = whole function; k = one iteration of loop k
+	Where Expr // exactly/atmost/atleast N EVENT where EXPR: only the events whose operands satisfy EXPR are counted
 	On    Expr // each EVENT[expr] ...: only events whose receiver / channel is (textually) the value of expr
 }
 
@@ -626,6 +627,17 @@ func parseTrace(rest string) (*TraceRule, error) {
 		f, err = takeCond(f[1:])
 		if err != nil {
 			return nil, err
+		}
+		for i, w := range f {
+			if w == "where" {
+				e, err := ParseExpr(strings.Join(f[i+1:], " "))
+				if err != nil {
+					return nil, err
+				}
+				tr.Where = e
+				f = f[:i]
+				break
+			}
 		}
 		tr.A = strings.Join(f, " ")
 	case "never":
